@@ -88,7 +88,15 @@ func (e *Ex) faultConn(c net.Conn) {
 			return
 		}
 		e.originConn(tc, true)
-	default: // tlsclose
+	case fk == "tlsclose":
 		c.Close()
+	default:
+		// an ordinary exchange sent here (via=sniff): a TLS origin the proxy trusts
+		tc := tls.Server(bc, orgTLS)
+		if err := tc.Handshake(); err != nil {
+			c.Close()
+			return
+		}
+		e.originConn(tc, true)
 	}
 }
